@@ -214,7 +214,7 @@ def proj_root(x):
             return x
 
 
-def rule_loop(m, rep, rid='R3', drained=False):
+def rule_loop(m, rep, rid='R3', drained=False, liveness=False):
     lm = LoopModel(m, rep, rid)
     if not lm.ok:
         return lm
@@ -277,6 +277,23 @@ def rule_loop(m, rep, rid='R3', drained=False):
         rep.ob(rid, 'disconnect-leaves-loop', okx, body.where(lm.d),
                'a failed dequeue (disconnected) ends the loop' if okx else
                'after a failed dequeue the loop continues (busy loop) or calls the task')
+    if liveness and lm.dkind != 'blocking':
+        # a timed / non-blocking receive also fails when the queue is merely empty: leaving the loop on that ends the
+        # worker while handles are alive
+        errs = [s for (b_, s), v2 in oe.items() if v2 == 'err']
+        bad_exit = None
+        for s in errs:
+            region = reach(body, [s], stop=lambda q: q == lm.d)
+            for q in region:
+                for x in body.succs(q, False):
+                    if q in lm.loop and x not in lm.loop or body.blocks[q]['term']['k'] == 'return':
+                        gs = guards_of(T, q) or []
+                        if not any(('variant', 'Disconnected') in labels for _, labels, _ in gs):
+                            bad_exit = q
+        rep.ob(rid, 'loop-ends-only-on-stop-or-disconnect', bad_exit is None, body.where(bad_exit if bad_exit is not None else lm.d),
+               'an empty queue does not end the worker' if bad_exit is None else
+               'the %s receive also fails when the queue is merely empty (timeout): leaving the loop on that error ends the worker '
+               'while handles are alive, later metrics are never delivered' % lm.dkind)
     if drained:
         dr = set(bi for bi, t in body.calls() if not body.blocks[bi]['cleanup'] and
                  m.is_counter_op(norm(T.call_term(bi)), 'drained', 'fetch_add'))
@@ -299,87 +316,121 @@ def rule_task_closure(m, rep, rid='R4', handler=False, parts=None):
     if parts == ('unit',):
         rep.ob(rid, 'task-returns-unit', b.locals[0] == '()', b.where(), 'the task closure returns (): neither the emit result nor an error can leave the worker thread')
         return
+    b0 = b
+    b = inl(m.cad, b)       # nested closures / private helpers of the task are part of it
     T = Terms(b)
     emits = [bi for bi, t in b.calls() if not b.blocks[bi]['cleanup'] and callee_is(t, SINK_TRAIT + '::emit')]
     others = [bi for bi, t in b.calls() if not b.blocks[bi]['cleanup'] and
               callee_is(t, SINK_TRAIT + '::flush', SINK_TRAIT + '::stats')]
     rep.sites(len(emits))
     cnt = count_events(b, lambda x: x in emits)
-    ok = len(emits) == 1 and cnt == {1}
+    ok = bool(emits) and cnt == {1}
     rep.ob(rid, 'task-emits-exactly-once', ok, b.where(emits[0]) if emits else b.where(),
            'the task calls the wrapped sink\'s emit exactly once per metric' if ok else
            'the task calls the wrapped emit %s times per metric (retry/skip)' % sorted(cnt))
-    if not ok:
+    if not ok or parts == ('once',):
         return
-    e = emits[0]
-    ct = norm(T.call_term(e))
-    recv_ok = self_field_name(ct[2][0]) is not None and arc_inner(_capture_ty(b, self_field_name(ct[2][0])) or '') is not None
-    text_ok = is_whole_param(ct[2][1], 2) and not any(x[0] == 'call' and x[1].endswith('to_string') for x in walk(ct[2][1]))
-    rep.ob(rid, 'task-emits-same-text', text_ok, b.where(e),
-           'the wrapped emit receives the dequeued string unchanged' if text_ok else 'the wrapped emit receives %s' % fmt(ct[2][1]))
-    rep.ob(rid, 'task-emits-into-captured-sink', recv_ok, b.where(e),
-           'the receiver is the captured Arc of the wrapped sink' if recv_ok else 'receiver is %s' % fmt(ct[2][0]))
+    text_ok = recv_ok = True
+    for e in emits:
+        ct = norm(T.call_term(e))
+        fp = field_path_of(strip_views(ct[2][0]))
+        r1 = bool(fp) and any(arc_inner(_capture_ty(b0, n_) or '') is not None for n_ in fp)
+        t1 = is_whole_param(ct[2][1], 2) and not any(x[0] == 'call' and x[1].endswith('to_string') for x in walk(ct[2][1]))
+        if not t1 and text_ok:
+            rep.ob(rid, 'task-emits-same-text', False, b.where(e), 'the wrapped emit receives %s' % fmt(ct[2][1]))
+        if not r1 and recv_ok:
+            rep.ob(rid, 'task-emits-into-captured-sink', False, b.where(e), 'receiver is %s' % fmt(ct[2][0]))
+        text_ok, recv_ok = text_ok and t1, recv_ok and r1
+    if text_ok:
+        rep.ob(rid, 'task-emits-same-text', True, b.where(emits[0]), 'the wrapped emit receives the dequeued string unchanged')
+    if recv_ok:
+        rep.ob(rid, 'task-emits-into-captured-sink', True, b.where(emits[0]), 'the receiver is the captured Arc of the wrapped sink')
     rt = b.locals[0]
     rep.ob(rid, 'task-returns-unit', rt == '()', b.where(), 'the closure returns (): the emit result cannot leave the worker thread')
     if handler:
-        hcalls = []
+        hcalls_all = []
         for bi, t in b.calls():
             if b.blocks[bi]['cleanup']:
                 continue
             if callee_is(t, 'core::ops::function::Fn>::call', 'core::ops::function::FnMut>::call_mut',
                          'core::ops::function::FnOnce>::call_once'):
-                hcalls.append(bi)
-        rep.sites(len(hcalls))
-        paths = outcome_paths(T, e, {'h': set(hcalls)})
+                hcalls_all.append(bi)
+        rep.sites(len(hcalls_all))
         bad = []
-        for k, fact, counts in paths:
-            c = dict(counts)['h']
-            if fact == 'ok' and c != 0:
-                bad.append('handler invoked for an accepted metric')
-            if fact == '?' and c != 0:
-                bad.append('handler invoked without examining the emit result')
-        # on the Err edge: exactly once iff handler is Some
-        ok_e, err_e, _ = outcomes(T, e)
-        for h in hcalls:
-            hct = norm(T.call_term(h))
-            arg = hct[2][1]
-            a0 = arg[1][0] if arg[0] == 'tuple' and len(arg[1]) == 1 else None
-            exp = field_of(('payload', ct, 'Err'), '0', 0)
-            if a0 != exp:
-                bad.append('handler argument is %s, not the error returned by the wrapped emit' % fmt(arg))
-            # the callee is the captured Option<Box<dyn Fn>> payload
-            fn = hct[2][0]
-            if not any(x[0] == 'payload' and x[2] == 'Some' for x in walk(fn)):
-                bad.append('handler callee is not the Some payload of the configured handler')
-            gs = guards_of(T, h) or []
-            some_guard = any(norm(dt)[0] == 'discr' and any(l == ('variant', 'Some') for l in labels) for dt, labels, _ in gs)
-            err_guard = h in reach(b, err_e) and h not in reach(b, ok_e)
-            if not err_guard:
-                bad.append('handler call is not confined to the Err edge')
-            if not some_guard:
-                bad.append('handler call is not guarded by handler.is_some')
-        if err_e:
-            # paths from the Err edge with handler Some must call once: count on err paths in {0,1} and the 0 only via None
-            cnts = set()
+        claimed = set()
+        for e in emits:
+            ct = norm(T.call_term(e))
+            after = reach(b, b.succs(e, False))
+            hcalls = [h for h in hcalls_all if h in after]
+            claimed |= set(hcalls)
+            # an emit site that is only reached when no handler is configured owes nothing
+            none_only = False
+            for dt, labels, sbi in guards_of(T, e) or []:
+                d = norm(dt)
+                if d[0] == 'discr' and ('variant', 'None') in labels and 'MetricSink' not in fmt(d) and field_path_of(strip_views(d[1])) is not None:
+                    none_only = True
+            if none_only:
+                if hcalls:
+                    bad.append('a stored function is called although no handler is configured')
+                continue
+            paths = outcome_paths(T, e, {'h': set(hcalls)})
             for k, fact, counts in paths:
-                if fact == 'err':
-                    cnts.add(dict(counts)['h'])
-            if 2 in cnts:
-                bad.append('handler can be invoked twice for one failure')
-            if 1 not in cnts:
-                bad.append('handler is never invoked on failure')
-            if len(hcalls) == 1:
-                h = hcalls[0]
-                # from the Some edge of the handler test every path passes h
-                for dt, labels, sbi in guards_of(T, h) or []:
-                    if norm(dt)[0] == 'discr' and ('variant', 'Some') in labels:
-                        tgt = [s for s in b.succs(sbi, False) if h in reach(b, [s])]
-                        for s in tgt:
-                            if not C.must_pass(b, s, set(C.exits(b, False)), {h}):
-                                bad.append('with a handler configured a failure can go unreported')
-        else:
-            bad.append('emit result not examined')
-        rep.ob('C16-R1', 'handler-once-per-failure', not bad, b.where(hcalls[0]) if hcalls else b.where(),
+                c = dict(counts)['h']
+                if fact == 'ok' and c != 0:
+                    bad.append('handler invoked for an accepted metric')
+                if fact == '?' and c != 0:
+                    bad.append('handler invoked without examining the emit result')
+            # on the Err edge: exactly once iff handler is Some
+            ok_e, err_e, _ = outcomes(T, e)
+            for h in hcalls:
+                hct = norm(T.call_term(h))
+                arg = hct[2][1]
+                a0 = arg[1][0] if arg[0] == 'tuple' and len(arg[1]) == 1 else None
+                exp = field_of(('payload', ct, 'Err'), '0', 0)
+                if a0 != exp:
+                    bad.append('handler argument is %s, not the error returned by the wrapped emit' % fmt(arg))
+                # the callee is the captured Option<Box<dyn Fn>> payload
+                fn = hct[2][0]
+                if not any(x[0] == 'payload' and x[2] == 'Some' for x in walk(fn)):
+                    bad.append('handler callee is not the Some payload of the configured handler')
+                gs = guards_of(T, h) or []
+                some_guard = any(norm(dt)[0] == 'discr' and any(l == ('variant', 'Some') for l in labels) for dt, labels, _ in gs)
+                err_guard = h in reach(b, err_e) and h not in reach(b, ok_e)
+                if not err_guard:
+                    bad.append('handler call is not confined to the Err edge')
+                if not some_guard:
+                    bad.append('handler call is not guarded by handler.is_some')
+            if err_e:
+                # paths from the Err edge with handler Some must call once: count on err paths in {0,1} and the 0 only via None
+                cnts = set()
+                for k, fact, counts in paths:
+                    if fact == 'err':
+                        cnts.add(dict(counts)['h'])
+                if 2 in cnts:
+                    bad.append('handler can be invoked twice for one failure')
+                if 1 not in cnts:
+                    bad.append('handler is never invoked on failure')
+                if len(hcalls) == 1:
+                    h = hcalls[0]
+                    exits = set(C.exits(b, False))
+                    err_region = reach(b, err_e)
+                    for dt, labels, sbi in guards_of(T, h) or []:
+                        if norm(dt)[0] == 'discr' and ('variant', 'Some') in labels:
+                            if sbi in err_region or sbi == e:
+                                # handler tested after the failure: from its Some edge every path passes h
+                                tgt = [s for s in b.succs(sbi, False) if h in reach(b, [s])]
+                            else:
+                                # handler tested before the emit: from the Err edge every path passes h
+                                tgt = list(err_e)
+                            for s in tgt:
+                                if not C.must_pass(b, s, exits, {h}):
+                                    bad.append('with a handler configured a failure can go unreported')
+            else:
+                bad.append('emit result not examined')
+        stray = [h for h in hcalls_all if h not in claimed]
+        if stray:
+            bad.append('a stored function is called before the wrapped emit')
+        rep.ob('C16-R1', 'handler-once-per-failure', not bad, b.where(hcalls_all[0]) if hcalls_all else b.where(),
                'handler called exactly once with the emit error on Err ∧ Some(handler), never otherwise' if not bad else
                '; '.join(sorted(set(bad))))
 
@@ -422,7 +473,7 @@ def _nested_get(adt_term, name, depth=0):
 
 
 def rule_same_channel(m, rep, rid='R6'):
-    news = m.cad.method(m.worker, 'new')
+    news = names(m.cad).constructors(m.worker)
     b = one(rep, rid, 'worker constructor', news)
     if b is None:
         return
@@ -449,7 +500,7 @@ def rule_same_channel(m, rep, rid='R6'):
 # ------------------------------------------------------------------ C10-R3 capacity plumbing (+ builder frame)
 def rule_capacity(m, rep, rid='R3', frame=False):
     cad = m.cad
-    news = cad.method(m.worker, 'new')
+    news = names(cad).constructors(m.worker)
     b = one(rep, rid, 'worker constructor', news)
     if b is None:
         return
@@ -475,12 +526,12 @@ def rule_capacity(m, rep, rid='R3', frame=False):
     # build passes builder.capacity
     Tb = Terms(m.build)
     wn = [bi for bi, t in m.build.calls() if t.get('resolved') == b.path]
-    okb = len(wn) == 1 and self_field_name(norm(Tb.call_term(wn[0]))[2][0]) == 'capacity' and \
+    okb = len(wn) == 1 and self_field_name(norm(Tb.call_term(wn[0]))[2][0]) == names(cad).qb_capacity and \
         norm(Tb.call_term(wn[0]))[2][0][0] == 'field'
     rep.ob(rid, 'build-passes-capacity', okb, m.build.where(wn[0]) if wn else m.build.where(),
            'build() passes self.capacity to the worker' if okb else 'build() does not pass the configured capacity unchanged')
     # builder setters: each changes exactly its field
-    rule_builder_frame(cad, rep, QB, {'with_capacity': ('capacity', 'some-param')}, rid='builder', value_only=not frame, protect='capacity')
+    rule_builder_frame(cad, rep, QB, {'with_capacity': (names(cad).qb_capacity, 'some-param')}, rid='builder', value_only=not frame, protect=names(cad).qb_capacity, protect_label='capacity')
     # public constructors
     for name, want in (('with_capacity', True), ('from', False)):
         bs = cad.method(Q, name)
@@ -497,7 +548,7 @@ def rule_capacity(m, rep, rid='R3', frame=False):
         ct = norm(T2.call_term(bc[0]))
         bld = ct[2][0]
         sinkarg = ct[2][1]
-        cap = _field_value(bld, 'capacity')
+        cap = _field_value(bld, names(cad).qb_capacity)
         if want:
             okc = cap is not None and cap[0] == 'adt' and cap[2] == 'Some' and dict(cap[3])['0'] == ('param', 2)
             msg = 'capacity = Some(given capacity)'
@@ -546,7 +597,7 @@ def _field_value(t, name):
         return None
 
 
-def rule_builder_frame(cad, rep, adt, setters, rid='builder', value_only=False, protect=None):
+def rule_builder_frame(cad, rep, adt, setters, rid='builder', value_only=False, protect=None, protect_label=None):
     """Every `with_X(mut self, ..) -> Self` returns self with exactly field X replaced."""
     fields = [f['name'] for f in adt_fields(cad, adt)]
     short = adt.rsplit('::', 1)[-1]
@@ -587,16 +638,22 @@ def rule_builder_frame(cad, rep, adt, setters, rid='builder', value_only=False, 
         exp = setters.get(b.name)
         if protect is not None and okshape and (exp is None or exp[0] != protect):
             keeps = protect not in changed
-            rep.ob(rid, '%s::%s/keeps-%s' % (short, b.name, protect), keeps, b.where(),
+            rep.ob(rid, '%s::%s/keeps-%s' % (short, b.name, protect_label or protect), keeps, b.where(),
                    '%s carries the configured `%s` over' % (b.name, protect) if keeps else
                    'builder method %s loses/overwrites the configured `%s`' % (b.name, protect))
         if protect is not None and not okshape:
-            rep.unknown(rid, '%s::%s/keeps-%s' % (short, b.name, protect), b.where(), 'cannot see that %s keeps `%s`' % (b.name, protect))
+            rep.unknown(rid, '%s::%s/keeps-%s' % (short, b.name, protect_label or protect), b.where(), 'cannot see that %s keeps `%s`' % (b.name, protect))
         if value_only:
             if exp is None:
                 continue
             v = vals.get(exp[0])
-            okv = v is not None and v[0] == 'adt' and v[2] == 'Some' and dict(v[3])['0'] == ('param', 2)
+            if exp[1] == 'some-box':
+                okv = v is not None and v[0] == 'adt' and v[2] == 'Some' and any(x == ('param', 2) for x in walk(v)) and \
+                    any(x[0] == 'call' and x[1].endswith('alloc::boxed::Box::new') and x[2] == (('param', 2),) for x in walk(v))
+            elif exp[1] is None:
+                continue
+            else:
+                okv = v is not None and v[0] == 'adt' and v[2] == 'Some' and dict(v[3])['0'] == ('param', 2)
             rep.ob(rid, '%s::%s/value' % (short, b.name), okv, b.where(), 'stores Some(param) into `%s`' % exp[0] if okv else '%s does not store Some(argument) into `%s`' % (b.name, exp[0]))
             continue
         if not okshape:
@@ -698,10 +755,14 @@ def rule_counters(m, rep):
         ok = len(ws) == 1
         rep.ob('C15-R3', '%s/single-writer-site' % cname, ok, '', '%s is incremented from %s' % (cname, sorted(ws)))
     # queued()
-    qb = cad.method(m.stats_adt, 'queued')
+    # the public queued(), with whatever private helper computes it inlined
+    qb = cad.method(Q, 'queued')
     if len(qb) == 1:
         b = inl(cad, qb[0])
         rep.analysed(qb[0])
+        for p_, _, _ in getattr(b, 'inlined', None) or []:
+            if p_ in cad.bodies:
+                rep.analysed(cad.bodies[p_])
         T = Terms(b)
         subs = [(bi, blk) for bi, blk in enumerate(b.blocks) if blk['term']['k'] == 'assert' and 'Overflow(Sub)' in blk['term']['msg']]
         sat = [bi for bi, t in b.calls() if callee_is(t, 'saturating_sub', 'checked_sub')]
@@ -763,16 +824,9 @@ def rule_counters(m, rep):
         names = sorted(set(atom(x) for x in loads if atom(x)))
         rep.ob('C15-R4', 'queued-reads-submitted-and-drained', names == ['D', 'S'], b.where(), 'reads %s' % names)
     else:
-        rep.anchor_lost('C15-R4', 'stats.queued()')
-    # public getters delegate (queued -> stats.queued)
-    qpub = cad.method(Q, 'queued')
-    if len(qpub) == 1 and len(qb) == 1:
-        Tq = Terms(qpub[0])
-        rts = ret_terms(Tq, [0])
-        ok = len(rts) == 1 and term_callee_is(list(rts)[0], strip_generics(qb[0].path))
-        rep.ob('C15-R4', 'public-queued-delegates', ok, qpub[0].where(), 'QueuingMetricSink::queued() = worker.stats.queued()')
+        rep.anchor_lost('C15-R4', 'QueuingMetricSink::queued()')
     # constructor zeroes
-    nb = cad.method(m.stats_adt, 'new')
+    nb = role_names(cad).constructors(m.stats_adt)
     if len(nb) == 1:
         rts = ret_terms(Terms(inl(cad, nb[0])), [0])
         ok = False
